@@ -24,9 +24,12 @@ impl<const BITS: usize, const LIMBS: usize> Encodable for Uint<BITS, LIMBS> {
 /// See <https://eth.wiki/en/fundamentals/rlp>
 impl<const BITS: usize, const LIMBS: usize> Decodable for Uint<BITS, LIMBS> {
     fn decode(s: &Rlp) -> Result<Self, DecoderError> {
-        Self::try_from_be_slice(s.data()?).ok_or(DecoderError::Custom(
-            "RLP integer value too large for Uint.",
-        ))
+        // `decode_value` rejects lists, unlike `Rlp::data`.
+        s.decoder().decode_value(|bytes| {
+            Self::try_from_be_slice(bytes).ok_or(DecoderError::Custom(
+                "RLP integer value too large for Uint.",
+            ))
+        })
     }
 }
 
